@@ -328,6 +328,26 @@ func checkC09(c *Ctx) {
 		}
 		bws = append(bws, bw{"equal_score_modules", files2, append([]proto.Step{openStep("c/y/user.lua", files2["c/y/user.lua"])}, q2...), len(q2), "Dev_EqualScoreCandidates"})
 	}
+	// the same workspaces with an entry file configured: the project pass (its own goroutines and tables) runs too
+	for _, b := range append([]bw{}, bws...) {
+		entry := ""
+		switch b.name {
+		case "mirrored_trees":
+			entry = "client/ui/main.lua"
+		case "wide_tables":
+			entry = "big.lua"
+		case "symbols24":
+			entry = "mod03.lua"
+		}
+		if entry == "" {
+			continue
+		}
+		files := map[string]string{"luahelper.json": fmt.Sprintf(`{"ShowWarnFlag":1,"ProjectFiles":[%q]}`, entry)}
+		for k, v := range b.files {
+			files[k] = v
+		}
+		bws = append(bws, bw{b.name + "_project", files, b.steps, b.nq, b.dev})
+	}
 	repoRoot := "/repo"
 	if alt := os.Getenv("VERIF_REPO"); alt != "" {
 		repoRoot = alt
